@@ -63,7 +63,7 @@ claim('C07',
       '(APPLIED iff accepted by every target\'s model, else FAILED+ABORTED), nothing is merged twice/out of order, nothing sent before merge.',
       PROTO_NOTE, 'SSA symbolic execution -> transition relation; bounded model checking with crash parameter (z3)', 'DESIGN.md 6/C07')
 claim('C08',
-      'The real Server.Set handler is executed symbolically against a stub store whose Watch delivers a symbolic suffix of the transaction\'s '
+      'The real Server.Set handler and the real admin RollbackTransaction handler are executed symbolically against a stub store whose Watch delivers a symbolic suffix of the transaction\'s '
       'life (first event = any lifecycle point, later events monotone with stuttering/skips, last = finished), sync/async from the real '
       'extension parsing, any failure class: z3 proves success => awaited stage or later, error => FAILED with the mapped gRPC code, response '
       'lists exactly the changed (target, path, op) pairs and the stored id/index, and that no event sequence leaves the handler waiting '
@@ -96,7 +96,9 @@ claim('C12',
       'extensions, empty and populated configuration) over shape-generic requests (optional/nil fields, 0..n elements, symbolic short names over an '
       'alphabet with every byte the handlers treat specially, keys, extensions) is an obligation decided by z3; SAT = concrete request, replayed '
       'natively under recover().',
-      'Bounds: name/value lengths, pools and element counts in evidence.bounds; Capabilities and the admin service handlers are not covered; the '
+      'Also the admin LeafSelectionQuery handler (known/unknown target, change context absent / empty / with an update, replace or delete whose path and '
+      'value may be absent, empty and populated configuration). Bounds: name/value lengths, pools and element counts in evidence.bounds; Capabilities and the '
+      'other admin handlers (streams) are not covered; the '
       'SYNCHRONOUS Get strategy (goroutines waiting for device sync) is outside. std-lib / protobuf / regexp-matching internals outside. '
       'Trusted: go/ssa, executor, z3, gohelper (Go regexp compile).',
       'SSA symbolic execution, panic-site obligations + SMT (z3)', 'DESIGN.md 6/C12')
